@@ -241,6 +241,9 @@ type Step struct {
 	Items       *Val   `json:"items,omitempty"`
 	Parallelism *Val   `json:"parallelism,omitempty"`
 	Workflow    string `json:"workflow,omitempty"`
+	// WorkflowSpelling, when set, is how the reference to the file Workflow is written in the text
+	// (e.g. "./leaf.yaml", "sub//leaf.yaml").
+	WorkflowSpelling string `json:"workflow_spelling,omitempty"`
 	// vstartfail
 	Fail bool `json:"fail,omitempty"`
 	// Extra raw key/values rendered verbatim (corruptions).
@@ -305,11 +308,34 @@ func Hash(v any) uint64 {
 	return h.Sum64()
 }
 
+// RefSpellings maps every non-canonical spelling of a sub-workflow reference to the file it names.
+func (c *Case) RefSpellings() map[string]string {
+	out := map[string]string{}
+	progs := []*Program{c.Main}
+	for _, p := range c.Subs {
+		progs = append(progs, p)
+	}
+	for _, p := range progs {
+		if p == nil {
+			continue
+		}
+		for _, s := range p.Steps {
+			if s.WorkflowSpelling != "" && s.WorkflowSpelling != s.Workflow {
+				out[s.WorkflowSpelling] = s.Workflow
+			}
+		}
+	}
+	return out
+}
+
 // Request renders the case into a worker request.
 func (c *Case) Request(kind string) *vrun.Request {
 	files := map[string]string{}
 	for name, p := range c.Subs {
 		files[name] = RenderYAML(p)
+	}
+	for spelling, name := range c.RefSpellings() {
+		files[spelling] = files[name] // direct Prepare looks files up by the reference as written
 	}
 	var prior []any
 	for _, d := range c.PriorDocs {
